@@ -39,6 +39,7 @@ type Task struct {
 	// per-operation schedule state, owned by the hook
 	opStep  uint64
 	nextAt  uint64
+	fairAt  uint64
 	pre     []Preempt
 	preIdx  int
 	OpIndex int
@@ -84,6 +85,7 @@ type Sim struct {
 	LockCycles   []LockCycle
 	stuck        int
 	LockPreempts uint64
+	FairYields   uint64
 	Budget       uint64
 	noYield      int
 	Deadlock     bool
@@ -136,11 +138,24 @@ func (s *Sim) AddTask(body func(*Task)) *Task {
 func (s *Sim) armTask(t *Task) {
 	t.opStep = 0
 	t.preIdx = 0
+	t.fairAt = FairSlice
 	t.nextAt = s.Budget + 1
+	if t.fairAt < t.nextAt {
+		t.nextAt = t.fairAt
+	}
 	if len(t.pre) > 0 && t.pre[0].Step < t.nextAt {
 		t.nextAt = t.pre[0].Step
 	}
 }
+
+// FairSlice is the number of statements one operation may execute before the
+// scheduler gives the other callers a turn even without a planned
+// pre-emption (weak fairness). Real goroutines run in parallel and are
+// pre-empted by the runtime, so a caller that busy-waits for another one
+// (a compare-and-swap loop with runtime.Gosched in its body, say) is correct
+// code; without this rule it would spin until the step budget while the
+// caller it waits for is parked. Longer than any operation of the pinned tree.
+const FairSlice = 2_000_000
 
 // BeginOp resets the per-operation step counter of the running task and
 // installs the pre-emption plan of the operation.
@@ -290,14 +305,33 @@ func (s *Sim) slow(t *Task, site uint32) {
 		t.preIdx++
 		fire = true
 	}
+	fair := false
+	if t.opStep >= t.fairAt {
+		t.fairAt += FairSlice
+		fair = true
+	}
 	t.nextAt = s.Budget + 1
+	if t.fairAt < t.nextAt {
+		t.nextAt = t.fairAt
+	}
 	if t.preIdx < len(t.pre) && t.pre[t.preIdx].Step < t.nextAt {
 		t.nextAt = t.pre[t.preIdx].Step
 	}
-	if !fire || t == s.ctl || s.noYield > 0 {
+	if !fire && !fair || t == s.ctl || s.noYield > 0 {
 		return
 	}
-	next := s.nthOther(t, to)
+	var next *Task
+	if !fire {
+		// a fairness turn goes to whoever is next, parked lock holders
+		// included: this caller may be busy-waiting for one of them
+		s.FairYields++
+		keep := t.spinStreak
+		t.spinStreak = 1
+		next = s.nthOther(t, 0)
+		t.spinStreak = keep
+	} else {
+		next = s.nthOther(t, to)
+	}
 	if next == nil {
 		return
 	}
